@@ -39,6 +39,8 @@ ESTIMATORS = {
 
 
 def run(ctx, obs):
+    from ..rules import sweeps
+    sweeps.run(ctx, obs, 'C01')
     prog, dep = ctx.prog, ctx.dep
     # 1. FWD-list
     fwd_list(ctx, obs, CALC + 'calc_rdm', split_params={'noise'})
